@@ -27,7 +27,8 @@ from .engine import AnalysisError, FunctionInfo
 PURE_FUNCS = {"isinstance", "len", "type", "hasattr", "callable", "str", "int", "float", "bool", "tuple", "list", "set", "frozenset", "dict", "abs", "min", "max", "sorted", "any", "all", "sum",
               "repr", "iter", "zip", "enumerate", "range", "map", "filter", "Decimal", "Fraction", "getattr"}
 PURE_METHODS = {"lower", "upper", "strip", "lstrip", "rstrip", "startswith", "endswith", "split", "rsplit", "splitlines", "join", "get", "items", "keys", "values", "index", "count", "casefold",
-                "format", "replace", "find", "rfind", "isdigit", "copy", "partition", "rpartition", "encode", "decode", "match", "fullmatch", "search", "group", "groups", "title", "zfill"}
+                "format", "replace", "find", "rfind", "isdigit", "copy", "partition", "rpartition", "encode", "decode", "match", "fullmatch", "search", "group", "groups", "title", "zfill",
+                "splitext", "basename", "dirname", "normcase"}
 
 _FLIP = {ast.IsNot: ast.Is, ast.NotIn: ast.In, ast.NotEq: ast.Eq}
 _SWAP = {ast.Gt: ast.Lt, ast.GtE: ast.LtE}
@@ -48,7 +49,7 @@ def is_pure(e: ast.AST) -> bool:
 
 
 VALUE_METHODS = {"lower", "upper", "strip", "lstrip", "rstrip", "startswith", "endswith", "split", "rsplit", "splitlines", "join", "casefold", "format", "replace", "find", "rfind",
-                 "isdigit", "partition", "rpartition", "encode", "decode", "title", "zfill"}
+                 "isdigit", "partition", "rpartition", "encode", "decode", "title", "zfill", "splitext", "basename", "dirname", "normcase", "search", "fullmatch"}
 
 
 def reads_state(e: ast.AST, value_calls: Iterable[str] = ()) -> bool:
@@ -94,8 +95,12 @@ def never_none(e: ast.AST) -> bool:
     if isinstance(e, ast.Call):
         f = e.func
         nm = f.id if isinstance(f, ast.Name) else (f.attr if isinstance(f, ast.Attribute) else "")
-        return nm[:1].isupper() or nm in ("list", "dict", "set", "tuple", "str", "int", "float", "frozenset", "sorted", "len", "iter", "zip", "map", "filter", "enumerate", "range", "repr", "bool")
+        if nm[:1].isupper() or nm in ("list", "dict", "set", "tuple", "str", "int", "float", "frozenset", "sorted", "len", "iter", "zip", "map", "filter", "enumerate", "range", "repr", "bool"):
+            return True
     if isinstance(e, (ast.List, ast.Tuple, ast.Dict, ast.Set, ast.JoinedStr, ast.ListComp, ast.SetComp, ast.DictComp, ast.GeneratorExp, ast.Lambda)):
+        return True
+    if isinstance(e, ast.Call) and isinstance(e.func, ast.Attribute) and e.func.attr in ("join", "lower", "upper", "strip", "lstrip", "rstrip", "split", "rsplit", "splitlines", "format", "replace",
+                                                                                          "partition", "rpartition", "normpath", "casefold", "title", "encode", "decode", "getvalue"):
         return True
     return isinstance(e, ast.Constant) and e.value is not None
 
@@ -126,6 +131,9 @@ def canon(e: ast.AST) -> Tuple[str, bool]:
                 r = ast.Tuple(elts=sorted(r.elts, key=lambda c: (type(c.value).__name__, c.value)), ctx=ast.Load())
             except TypeError:
                 pass
+        elif isinstance(op, ast.In) and isinstance(r, (ast.Tuple, ast.List, ast.Set)) and r.elts and all(isinstance(x, (ast.Constant, ast.Name, ast.Attribute)) for x in r.elts):
+            # membership in a display of names / enum members: the order of the display does not matter
+            r = ast.Tuple(elts=sorted(r.elts, key=lambda c: ast.unparse(c)), ctx=ast.Load())
         e = ast.Compare(left=l, ops=[op], comparators=[r])
     return ast.unparse(e), flip
 
@@ -512,7 +520,7 @@ def _simplify(e: ast.AST) -> ast.AST:
                 return ast.Constant(value=(l.value is None) == pos)
             if isinstance(l, ast.Call) and isinstance(l.func, ast.Name) and l.func.id[:1].isupper():
                 return ast.Constant(value=not pos)
-            if isinstance(l, (ast.List, ast.Tuple, ast.Dict, ast.Set, ast.JoinedStr)):
+            if isinstance(l, (ast.List, ast.Tuple, ast.Dict, ast.Set, ast.JoinedStr)) or never_none(l):
                 return ast.Constant(value=not pos)
     return e
 
@@ -883,7 +891,7 @@ def _break_guarded(loop: ast.AST) -> Set[str]:
         ends = bool(stmts) and isinstance(stmts[-1], (ast.Break, ast.Return, ast.Raise)) and not nested
         if bool(stmts) and isinstance(stmts[-1], (ast.Return, ast.Raise)):
             ends = True
-        for st in stmts:
+        for i_, st in enumerate(stmts):
             names: Set[str] = set()
             if isinstance(st, ast.Assign):
                 for t in st.targets:
@@ -901,6 +909,10 @@ def _break_guarded(loop: ast.AST) -> Set[str]:
             if isinstance(st, (ast.FunctionDef, ast.AsyncFunctionDef, ast.ClassDef)):
                 continue
             inner_nested = nested or isinstance(st, (ast.For, ast.AsyncFor, ast.While))
+            if isinstance(st, (ast.For, ast.AsyncFor)) and len(st.orelse) == 1 and isinstance(st.orelse[0], ast.Continue) and i_ + 1 < len(stmts) and isinstance(stmts[i_ + 1], ast.Break) and not nested:
+                # for ...: ... break ... else: continue ; break   -- leaving the inner loop leaves this one too
+                block(st.body, False, False)
+                continue
             for fld in ("body", "orelse", "finalbody"):
                 sub = getattr(st, fld, None)
                 if isinstance(sub, list) and sub and isinstance(sub[0], ast.stmt):
@@ -1043,6 +1055,11 @@ class _Reducer:
         for nm, v in vals.items():
             if stores.get(nm) == 1 and loads.get(nm) == 1 and (isinstance(v, ast.GeneratorExp) or (isinstance(v, ast.Call) and isinstance(v.func, ast.Name) and v.func.id in ("map", "filter"))):
                 self.defs[nm] = v
+
+    def loop_line(self, at: ast.AST) -> int:
+        """Generated loops get distinct pseudo line numbers (real line + 100000*k) so that rules can tell them apart."""
+        self.k = getattr(self, "k", 0) + 1
+        return getattr(at, "lineno", 0) % 100000 + 100000 * self.k
 
     def fresh(self, base: str) -> str:
         while True:
@@ -1189,6 +1206,41 @@ class _Reducer:
         pre = ast.copy_location(ast.Assign(targets=[ast.Name(id=t, ctx=ast.Store())], value=target), at)
         return [pre], Rep().visit(e)
 
+    def _expand_nested(self, name: str, kind: str, g: ast.GeneratorExp, extra, at: ast.stmt) -> List[ast.stmt]:
+        """any / all / next over several generators: nested loops; leaving the innermost loop leaves them all
+        (for ...: for ...: if hit: x = ...; break  else: continue  break)."""
+        store = lambda: ast.Name(id=name, ctx=ast.Store())
+        assign = lambda v: ast.copy_location(ast.Assign(targets=[store()], value=v), at)
+        brk = lambda: ast.copy_location(ast.Break(), at)
+        if kind == "first":
+            init, hit_test, hit_val = extra["default"], None, g.elt
+        elif kind == "any":
+            init, hit_test, hit_val = ast.Constant(value=False), g.elt, ast.Constant(value=True)
+        else:
+            init, hit_test, hit_val = ast.Constant(value=True), ast.UnaryOp(op=ast.Not(), operand=g.elt), ast.Constant(value=False)
+        body: List[ast.stmt] = [assign(hit_val), brk()]
+        if hit_test is not None:
+            body = [ast.copy_location(ast.If(test=hit_test, body=body, orelse=[]), at)]
+        first = True
+        for comp in reversed(g.generators):
+            for c in reversed(comp.ifs):
+                body = [ast.copy_location(ast.If(test=c, body=body, orelse=[]), at)]
+            loop = ast.copy_location(ast.For(target=comp.target, iter=comp.iter, body=body, orelse=[], type_comment=None), at)
+            loop.lineno = self.loop_line(at)
+            if first:
+                body = [loop]
+                first = False
+            else:
+                body = [loop]
+            # every loop but the outermost is followed by: else: continue / break   (added when wrapping it below)
+            if comp is not g.generators[0]:
+                loop.orelse = [ast.copy_location(ast.Continue(), at)]
+                body = [loop, brk()]
+        out = [assign(init)] + body
+        for x in out:
+            ast.fix_missing_locations(x)
+        return out
+
     def _flatten(self, g: ast.GeneratorExp) -> ast.GeneratorExp:
         """Several generators as one: over chain(A, B) when the nest is 'for g in (A, B) for v in g' and only v is used, else over a generator of the bound variables."""
         gens = g.generators
@@ -1213,6 +1265,7 @@ class _Reducer:
             for c in reversed(comp.ifs):
                 body = [ast.copy_location(ast.If(test=c, body=body, orelse=[]), at)]
             body = [ast.copy_location(ast.For(target=comp.target, iter=comp.iter, body=body, orelse=[], type_comment=None), at)]
+            body[0].lineno = self.loop_line(at)
         for x in body:
             ast.fix_missing_locations(x)
         return body
@@ -1234,7 +1287,7 @@ class _Reducer:
 
         brk = ast.copy_location(ast.Break(), at)
         if len(g.generators) >= 2 and kind in ("any", "all", "first"):
-            g = self._flatten(g)
+            return self._expand_nested(name, kind, g, extra, at)
         single = len(g.generators) == 1
         if kind == "sum":
             if _is_bool_expr(g.elt) or (isinstance(g.elt, ast.Constant) and g.elt.value == 1):
